@@ -6,5 +6,5 @@ export CARGO_NET_OFFLINE=true
 python3 tools/extract_params.py >/dev/null
 (cd lean && lake build FjallModel Generated driver)
 (cd harness && cargo build --offline --release --bins && cargo build --offline --bins)
-if [ -f shim/crashshim.c ]; then cc -shared -fPIC -O2 -o shim/crashshim.so shim/crashshim.c -ldl; fi
+cc -shared -fPIC -O2 -o shim/crashshim.so shim/crashshim.c -ldl
 echo setup-ok
